@@ -70,6 +70,14 @@ def configs(tier, seed):
         cfgs.append(dict(backend='dict', backoff=bo, n=2, messages=1, harness_wait=True, slow_ops=['get'], d=3, dd=1, menu=MENU,
                          script=[['enqueue', 0], ['announce', 0]]))
     cfgs.append(dict(backend='redis', backoff='r0x2', n=2, messages=1, redis_yields=['hmget'], d=3, dd=1, menu=MENU))
+    # the storage announces a new message (redis: the write's own RPUSH) before the writer has got its reply
+    cfgs.append(dict(backend='redis', backoff='r0x2', n=2, messages=1, redis_yields=['pipeline-reply'], d=3, dd=1, menu=MENU))
+    cfgs.append(dict(backend='redis', backoff='r10', n=2, messages=2, redis_yields=['pipeline-reply'], d=2, dd=1, menu=MENU))
+    # an announcement while the retry bookkeeping of a partly delivered message is still being written
+    for bo in ('r0x2', 'r10'):
+        cfgs.append(dict(backend='dict', backoff=bo, n=2, messages=1, harness_wait=True, slow_ops=['set_timestamp', 'set_recipients_delivered', 'increment_attempts'],
+                         d=3, dd=2, menu=MENU, script=[['enqueue', 0], ['announce', 0]]))
+    cfgs.append(dict(backend='redis', backoff='r0x2', n=2, messages=1, redis_yields=['hset', 'hincrby'], d=3, dd=2, menu=MENU))
     # relays that answer with a sequence (list) instead of a mapping
     for b in ('dict', 'disk', 'shelf'):
         cfgs.append(dict(backend=b, backoff='r0x2', n=2, messages=1, d=0, dd=3, menu=dict(MENU, sequences=True)))
